@@ -408,15 +408,44 @@ def bad_history(rng, kind, ncalls=20, small=False, **over):
     return out
 
 
-def rt_history(rng, kind, ncalls=30, small=False):
+def rt_pair_history(rng, kinds=None):
+    """Two (or three) live resamplers used alternately on one thread - a duplex device: capture and playback,
+    up- and down-sampling with crossed block sizes, siblings of one family. Whatever one instance does must not
+    make another one touch the heap (or change its results) (seeded change C09f)."""
+    fam = rng.choice(["fft", "fft", "sinc", "fast", "mixed"])
+    hs = []
+    if fam == "fft":
+        a, b = rng.choice([(48000, 192000), (44100, 48000), (1, 4), (3, 2), (8000, 44100), (2, 1)])
+        for (x, y) in ((a, b), (b, a)):
+            hs.append(rt_history(rng, rng.choice(FFT), rng.randrange(6, 14), fs_in=x, fs_out=y,
+                                 chunk=rng.choice([64, 256, 300, 1024]), sub=rng.choice([1, 2])))
+    else:
+        pool = {"sinc": ["SincFixedIn", "SincFixedOut"], "fast": ["FastFixedIn", "FastFixedOut"], "mixed": KINDS}[fam]
+        for _ in range(rng.choice([2, 2, 3])):
+            hs.append(rt_history(rng, rng.choice(pool), rng.randrange(6, 14), small=rng.random() < 0.3))
+    ops = []
+    for i, h in enumerate(hs):
+        ops.append(dict(h[0], id=i))
+    cur = [1] * len(hs)
+    while any(cur[i] < len(hs[i]) for i in range(len(hs))):
+        i = rng.choice([k for k in range(len(hs)) if cur[k] < len(hs[k])])
+        for _ in range(rng.randrange(1, 3)):
+            if cur[i] < len(hs[i]):
+                ops.append(dict(hs[i][cur[i]], id=i))
+                cur[i] += 1
+    return ops
+
+
+def rt_history(rng, kind, ncalls=30, small=False, **fixed):
     """Every operation that must be real-time safe, at every kind of history point (C09)."""
     over = {}
     if rng.random() < 0.5:
         over = {"signal": "noise", "ch": rng.choice([2, 3, 4])}
         if kind.startswith("Sinc"):
             over["probe"] = "dispatch"
+    over.update(fixed)
     ops = valid_history(rng, kind, ncalls, small, allow=("ratio", "ramp", "chunk", "reset"),
-                        varymask=bool(over), **over)
+                        varymask=bool(over) and "signal" in over, **over)
     out = [ops[0]]
     ch = ops[0]["ch"]
     for op in ops[1:]:
